@@ -80,10 +80,12 @@ func Sources(set *ymodel.Set, order []int) []ymodel.Source {
 		set2 := *set
 		set2.Older = ""
 		srcs := Sources(&set2, order)
+		// with it comes the submodule that only the older revision includes: before it or after it
+		os := set.OlderSubText()
 		if set.OlderFirst {
-			return append([]ymodel.Source{*o}, srcs...)
+			return append([]ymodel.Source{*o, *os}, srcs...)
 		}
-		return append(srcs, *o)
+		return append(srcs, *os, *o)
 	}
 	srcs := set.Texts()
 	if len(order) != len(srcs) {
